@@ -20,6 +20,7 @@ type JStop struct {
 	StopID   string
 	Arr, Dep *int64
 	Track    *string
+	SchedRel int32 `json:",omitempty"` // stop time update schedule relationship (0 SCHEDULED, 1 SKIPPED, 2 NO_DATA, 3 UNSCHEDULED)
 }
 
 type JUpdate struct {
@@ -67,7 +68,7 @@ func (h *History) buildRealtime(f *JFeed) *gtfs.Realtime {
 			HasStartTime: true, StartTime: time.Duration(d.StartTimeSec) * time.Second}, IsEntityInMessage: true}
 		for _, s := range u.Stops {
 			id := s.StopID
-			stu := gtfs.StopTimeUpdate{StopID: &id}
+			stu := gtfs.StopTimeUpdate{StopID: &id, ScheduleRelationship: gtfs.StopTimeUpdateScheduleRelationship(s.SchedRel)}
 			if s.Arr != nil {
 				tm := jTime(*s.Arr)
 				stu.Arrival = &gtfs.StopTimeEvent{Time: &tm}
@@ -173,6 +174,12 @@ func genJStop(t *rapid.T, id string, base int64) JStop {
 		v := base + int64(rapid.IntRange(0, 600).Draw(t, "dep"))
 		s.Dep = &v
 	}
+	if rapid.IntRange(0, 3).Draw(t, "rel?") == 0 {
+		s.SchedRel = int32(rapid.IntRange(1, 3).Draw(t, "rel"))
+		if s.SchedRel == 2 && rapid.Bool().Draw(t, "noDataNoTimes") {
+			s.Arr, s.Dep = nil, nil // NO_DATA updates carry no times
+		}
+	}
 	if rapid.IntRange(0, 2).Draw(t, "track?") == 0 {
 		tr := rapid.SampledFrom([]string{"1", "2", "A3", ""}).Draw(t, "track")
 		s.Track = &tr
@@ -194,7 +201,7 @@ func genHistory(t *rapid.T, o jGenOpts) (*History, map[string]int) {
 	day := int64(1_700_006_400) // 2023-11-15T00:00:00Z
 	maxStops := 5
 	if rapid.IntRange(0, 19).Draw(t, "sizeClass") == 0 {
-		n := rapid.SampledFrom([]int{17, 33, 70}).Draw(t, "sizeN")
+		n := rapid.SampledFrom([]int{17, 33, 70, 130, 260}).Draw(t, "sizeN")
 		switch rapid.IntRange(0, 2).Draw(t, "sizeWhat") {
 		case 0:
 			o.MaxTrips = n
